@@ -405,11 +405,37 @@ Section WithHash.
     end.
 
   (** * C04: nested results, is_valid_nested, the validity branch of Scheduler._get_cache *)
+  (** A cached result can also be (or contain) an *expression* -- a task returning `other(x, data=f)`.
+      To iter_nested_value an Expression is a leaf Value; its own is_valid walks the Values nested in
+      its arguments (redun/expression.py).  [kw] / [args]: the leaves of the keyword / positional
+      arguments in the order that walk meets them (iter_nested_value((args, kwargs)) reaches the
+      kwargs first).  TaskExpression (and SchedulerExpression, which inherits it) first requires the
+      task name to be registered ([known]). *)
+  Inductive ekind := ETask | ESimple.
   Inductive leaf :=
   | LPlain                      (* ordinary value: Value.is_valid is True *)
   | LExt (o : vobj)             (* File / FileSet / Dir of any family, with its recorded hash *)
-  | LHandle (valid : bool).     (* Handle: validity is the backend's row flag (C25) *)
+  | LHandle (valid : bool)      (* Handle: validity is the backend's row flag (C25) *)
+  | LExpr (k : ekind) (known : bool) (kw args : list leaf).
   Inductive nested := NLeaf (l : leaf) | NNode (children : list nested).
+
+  (** which argument containers the validity walk of an expression covers, per class
+      (extracted from redun/expression.py by translate/tr_expr.py) *)
+  Record evariant := mkEV { task_walks_kwargs : bool; simple_walks_kwargs : bool }.
+  Definition full_ev : evariant := mkEV true true.
+  Definition walks_kwargs (ev : evariant) (k : ekind) : bool :=
+    match k with ETask => task_walks_kwargs ev | ESimple => simple_walks_kwargs ev end.
+
+  (** all(... for value in ...): stops at the first False; an exception propagates *)
+  Definition vall {A} (f : A -> vres) : list A -> vres :=
+    fix go (ls : list A) : vres :=
+      match ls with
+      | [] => VTrue
+      | x :: r => match f x with VTrue => go r | VFalse => VFalse | VRaise => VRaise end
+      end.
+
+  Section ExprCfg.
+  Variable ev : evariant.
 
   (** iter_nested_value: explicit stack, so children are visited last to first *)
   Fixpoint visit (n : nested) : list leaf :=
@@ -418,11 +444,18 @@ Section WithHash.
     | NNode cs => (fix go (cs : list nested) : list leaf :=
                      match cs with [] => [] | c :: r => go r ++ visit c end) cs
     end.
-  Definition leaf_valid (v : variant) (fs : fsys) (l : leaf) : vres :=
+  Fixpoint leaf_valid (v : variant) (fs : fsys) (l : leaf) : vres :=
     match l with
     | LPlain => VTrue
     | LExt o => fst (obj_is_valid v fs o)
     | LHandle b => if b then VTrue else VFalse
+    | LExpr k known kw args =>
+        if (match k with ETask => known | ESimple => true end)
+        then match (if walks_kwargs ev k then vall (leaf_valid v fs) kw else VTrue) with
+             | VTrue => vall (leaf_valid v fs) args
+             | r => r
+             end
+        else VFalse
     end.
   (** all(map(is_valid, leaves)): stops at the first False; an exception propagates *)
   Fixpoint all_valid (v : variant) (fs : fsys) (ls : list leaf) : vres :=
@@ -558,6 +591,7 @@ Section WithHash.
     match r with HReplayed st _ | HExecuted st _ | HRaised st | HChanged st => st end.
   Definition hrun (v : variant) (tk : task) (st : hstate) (ops : list hop) : hstate :=
     fold_left (fun s o => hres_state (hstep v tk s o)) ops st.
+  End ExprCfg.
 End WithHash.
 
 (** * Description of the class table, for the translator's tie.  One row per class in
